@@ -6,6 +6,7 @@ import Req.Client.CompressAttempts
 import Req.Client.CompressFormats
 import Req.Client.CompressClose
 import Req.Client.CompressZstd
+import Req.Client.CompressLines
 import Req.Lemmas.C14Auto
 /-! Driver lanes of C14. -/
 namespace Req.Driver.L.C14
@@ -24,13 +25,15 @@ def pairs : List Bytes → Option Header
 
 def unpairs (h : Header) : List Bytes := h.flatMap fun p => [p.1, p.2]
 
-/-- `c14select <ce>` → the reader `NewCompressReader` builds, and the EqualFold-gzip test. -/
+/-- `c14select <ce>` → the reader `NewCompressReader` builds, the EqualFold-gzip test, and the list
+of content codings the value denotes (`Lines.codings`). -/
 def laneSelect : List String → String
   | [ce] =>
     match decodeHex ce with
     | some b =>
       (match select b with | some a => a.name | none => "none") ++
-        " fold=" ++ (if isGzipFold b then "1" else "0")
+        " fold=" ++ (if isGzipFold b then "1" else "0") ++
+        " codings=" ++ encodeList (Req.Compress.Lines.codings [b])
     | none => "bad-op"
   | _ => "bad-op"
 
@@ -62,6 +65,19 @@ def exchange (legacy : Bool) : List String → String
     | _, _, _, _, _, _, _, _, _ => "bad-op"
   | _ => "bad-op"
 
+
+/-- `c14xj …` (same arguments as `c14x`): the exchange under the REPAIRED reading of the
+Content-Encoding lines (`Lines.Joined.process`, fixes/C14-7): several lines are one list. -/
+def exchangeJ : List String → String
+  | [site, dc, auto, method, ae, range, hasBody, hdr, cl, wire, gz, dfl, br, zs] =>
+    match parseSite site, parseBool dc, parseBool auto, decodeHex method, decodeHex ae,
+        decodeHex range, parseBool hasBody, (decodeList hdr).bind pairs, decodeInt cl with
+    | some s, some dc, some auto, some m, some ae, some rg, some hb, some h, some n =>
+      let c : ReqCfg := ⟨dc, m, ae, rg⟩
+      let r : Resp := ⟨h, n, false⟩
+      showOut (wireAcceptEncoding (addGzip s c) c) (Req.Compress.Lines.Joined.process s c auto hb r) wire gz dfl br zs
+    | _, _, _, _, _, _, _, _, _ => "bad-op"
+  | _ => "bad-op"
 
 /-- `c14seq <site> <dc> <auto> <method> <accept-encoding> <range> <hasBody> <header> <ContentLength>
 <wire> <gzip> <deflate> <br> <zstd> <k> <deliverAll>`: ONE request object attempted `k` times
@@ -252,6 +268,7 @@ def lanes : List (String × (List String → String)) := [
   ("c14select", laneSelect),
   ("c14x", exchange false),
   ("c14xlegacy", exchange true),
+  ("c14xj", exchangeJ),
   ("c14seq", sequence),
   ("c14enc", laneEnc),
   ("c14dec", laneDec),
